@@ -286,6 +286,8 @@ def run(ctx):
                 ctx.note_inconclusive(s)
             absorb_diff(tr, {"cfg": cfgj, "rep": rep, "tlc": name})
     ctx.extra["edges_replayed"] = edges_total
+    ctx.extra["replayed_edges_whose_report_depends_on_the_destination"] = ctx.extra.get("counters", {}).get(
+        "replay_edges_whose_report_depends_on_the_destination", 0)
     ctx.extra["replayed_points_differing_from_reference"] = refdiffs
 
     # replayed cases whose data point differs from the reference point: the contract decides
